@@ -374,3 +374,194 @@ Qed.
 (** the lexer terminates within [length src + 1] tokens, original and repaired position counting alike *)
 Theorem lex_terminates : forall cm src, snd (lex cm src) <> LFuel.
 Proof. intros. unfold lex, lex_fuel. apply lex_all_fuel. lia. Qed.
+
+(** at most one token per byte, for either position unit *)
+Lemma lex_all_count : forall cm f rem pos line ls,
+  (length (fst (lex_all f cm rem pos line ls)) <= length rem)%nat.
+Proof.
+  induction f as [|f IH]; intros rem pos line ls; simpl; [lia|].
+  pose proof (lex_one_consumes cm rem pos line ls) as C.
+  destruct (lex_one cm rem pos line ls) as [|t r p l ls'| |]; try (simpl; lia).
+  specialize (C _ _ _ _ _ eq_refl). specialize (IH r p l ls').
+  destruct (lex_all f cm r p l ls') as [ts e]. destruct (t_ty t); simpl in *; lia.
+Qed.
+Lemma lex_count : forall cm src, (length (fst (lex cm src)) <= length src)%nat.
+Proof. intros. unfold lex. apply lex_all_count. Qed.
+
+(** the statement of [lex_ok_gen] spelled out, for valid UTF-8 *)
+Theorem lex_positions :
+  forall src toks e, utf8_valid src -> lex false src = (toks, e) ->
+    Forall (fun ti => bnd src (t_start (ti_tok ti)) /\ bnd src (t_stop (ti_tok ti))
+                      /\ t_start (ti_tok ti) <= t_stop (ti_tok ti) /\ bnd src (ti_linestart ti)
+                      /\ substr src (ti_tok ti) <> None) toks
+    /\ (forall p l ls, e = LEof p l ls -> bnd src ls)
+    /\ (length toks <= length src)%nat.
+Proof.
+  intros src toks e V H.
+  destruct (lex_ok_gen _ _ _ (valid_starts_on_boundary _ V) H) as (F & E & N).
+  split; [|split; [|exact N]].
+  - eapply Forall_impl; [|exact F]. intros ti [[A [B C]] D].
+    repeat split; auto. destruct (tok_ok_substr src (ti_tok ti)) as [s ->]; [repeat split; auto | discriminate].
+  - intros p l ls ->. exact E.
+Qed.
+
+(** * Well-formed UTF-8 as an inductive predicate *)
+Inductive U8 : bytes -> Prop :=
+| U8_nil : U8 []
+| U8_1 : forall b r, 0 <= b < 128 -> U8 r -> U8 (b :: r)
+| U8_2 : forall b0 b1 r, 194 <= b0 < 224 -> is_cont b1 = true -> U8 r -> U8 (b0 :: b1 :: r)
+| U8_3 : forall b0 b1 b2 r, 224 <= b0 < 240 -> is_cont b1 = true -> is_cont b2 = true ->
+    (b0 = 224 -> 160 <= b1) -> (b0 = 237 -> b1 < 160) -> U8 r -> U8 (b0 :: b1 :: b2 :: r)
+| U8_4 : forall b0 b1 b2 b3 r, 240 <= b0 < 245 -> is_cont b1 = true -> is_cont b2 = true -> is_cont b3 = true ->
+    (b0 = 240 -> 144 <= b1) -> (b0 = 244 -> b1 < 144) -> U8 r -> U8 (b0 :: b1 :: b2 :: b3 :: r).
+
+Ltac zb :=
+  repeat match goal with
+  | H : _ && _ = true |- _ => apply andb_prop in H; destruct H
+  | H : (_ <=? _) = true |- _ => apply Z.leb_le in H
+  | H : (_ <? _) = true |- _ => apply Z.ltb_lt in H
+  | H : (_ =? _) = true |- _ => apply Z.eqb_eq in H
+  | H : (_ <=? _) = false |- _ => apply Z.leb_gt in H
+  | H : (_ <? _) = false |- _ => apply Z.ltb_ge in H
+  | H : (_ =? _) = false |- _ => apply Z.eqb_neq in H
+  end.
+
+Lemma validb_fuel_U8 : forall f s, utf8_validb_fuel f s = true -> U8 s.
+Proof.
+  induction f as [|f IH]; intros s H; simpl in H.
+  - destruct s; [constructor | discriminate].
+  - destruct s as [|b0 r]; [constructor|].
+    destruct ((0 <=? b0) && (b0 <? 128)) eqn:A.
+    { zb. apply U8_1; [lia | auto]. }
+    destruct ((194 <=? b0) && (b0 <? 224)) eqn:B.
+    { destruct r as [|b1 r']; [discriminate|]. apply andb_prop in H. destruct H as [H1 H2]. zb.
+      apply U8_2; auto; lia. }
+    destruct ((224 <=? b0) && (b0 <? 240)) eqn:C.
+    { destruct r as [|b1 [|b2 r']]; try discriminate.
+      apply andb_prop in H. destruct H as [H H5]. apply andb_prop in H. destruct H as [H H4].
+      apply andb_prop in H. destruct H as [H H3]. apply andb_prop in H. destruct H as [H1 H2]. zb.
+      apply U8_3; auto; try lia.
+      - intros ->. simpl in H3. zb. lia.
+      - intros ->. simpl in H4. zb. lia. }
+    destruct ((240 <=? b0) && (b0 <? 245)) eqn:D; [|discriminate].
+    { destruct r as [|b1 [|b2 [|b3 r']]]; try discriminate.
+      apply andb_prop in H. destruct H as [H H6]. apply andb_prop in H. destruct H as [H H5].
+      apply andb_prop in H. destruct H as [H H4]. apply andb_prop in H. destruct H as [H H3].
+      apply andb_prop in H. destruct H as [H1 H2]. zb.
+      apply U8_4; auto; try lia.
+      - intros ->. simpl in H4. zb. lia.
+      - intros ->. simpl in H5. zb. lia. }
+Qed.
+Lemma valid_U8 : forall s, utf8_valid s -> U8 s.
+Proof. intros s H. eapply validb_fuel_U8. exact H. Qed.
+
+Lemma U8_validb_fuel : forall s, U8 s -> forall f, (length s <= f)%nat -> utf8_validb_fuel f s = true.
+Proof.
+  induction 1 as [|b r Hb Hr IH|b0 b1 r Hb H1 Hr IH|b0 b1 b2 r Hb H1 H2 Ha Hd Hr IH|b0 b1 b2 b3 r Hb H1 H2 H3 Ha Hd Hr IH];
+    intros f L.
+  - destruct f; reflexivity.
+  - destruct f as [|f]; [simpl in L; lia|]. simpl.
+    replace ((0 <=? b) && (b <? 128)) with true
+      by (symmetry; apply andb_true_intro; split; [apply Z.leb_le | apply Z.ltb_lt]; lia).
+    apply IH. simpl in L. lia.
+  - destruct f as [|f]; [simpl in L; lia|]. simpl.
+    replace ((0 <=? b0) && (b0 <? 128)) with false
+      by (symmetry; apply andb_false_intro2; apply Z.ltb_ge; lia).
+    replace ((194 <=? b0) && (b0 <? 224)) with true
+      by (symmetry; apply andb_true_intro; split; [apply Z.leb_le | apply Z.ltb_lt]; lia).
+    rewrite H1. apply IH. simpl in L. lia.
+  - destruct f as [|f]; [simpl in L; lia|]. simpl.
+    replace ((0 <=? b0) && (b0 <? 128)) with false
+      by (symmetry; apply andb_false_intro2; apply Z.ltb_ge; lia).
+    replace ((194 <=? b0) && (b0 <? 224)) with false
+      by (symmetry; apply andb_false_intro2; apply Z.ltb_ge; lia).
+    replace ((224 <=? b0) && (b0 <? 240)) with true
+      by (symmetry; apply andb_true_intro; split; [apply Z.leb_le | apply Z.ltb_lt]; lia).
+    rewrite H1, H2.
+    replace (if b0 =? 224 then 160 <=? b1 else true) with true
+      by (symmetry; destruct (b0 =? 224) eqn:E; [zb; apply Z.leb_le; auto | reflexivity]).
+    replace (if b0 =? 237 then b1 <? 160 else true) with true
+      by (symmetry; destruct (b0 =? 237) eqn:E; [zb; apply Z.ltb_lt; auto | reflexivity]).
+    apply IH. simpl in L. lia.
+  - destruct f as [|f]; [simpl in L; lia|]. simpl.
+    replace ((0 <=? b0) && (b0 <? 128)) with false
+      by (symmetry; apply andb_false_intro2; apply Z.ltb_ge; lia).
+    replace ((194 <=? b0) && (b0 <? 224)) with false
+      by (symmetry; apply andb_false_intro2; apply Z.ltb_ge; lia).
+    replace ((224 <=? b0) && (b0 <? 240)) with false
+      by (symmetry; apply andb_false_intro2; apply Z.ltb_ge; lia).
+    replace ((240 <=? b0) && (b0 <? 245)) with true
+      by (symmetry; apply andb_true_intro; split; [apply Z.leb_le | apply Z.ltb_lt]; lia).
+    rewrite H1, H2, H3.
+    replace (if b0 =? 240 then 144 <=? b1 else true) with true
+      by (symmetry; destruct (b0 =? 240) eqn:E; [zb; apply Z.leb_le; auto | reflexivity]).
+    replace (if b0 =? 244 then b1 <? 144 else true) with true
+      by (symmetry; destruct (b0 =? 244) eqn:E; [zb; apply Z.ltb_lt; auto | reflexivity]).
+    apply IH. simpl in L. lia.
+Qed.
+Lemma U8_valid : forall s, U8 s -> utf8_valid s.
+Proof. intros s H. apply U8_validb_fuel; auto. Qed.
+
+Lemma U8_app : forall a b, U8 a -> U8 b -> U8 (a ++ b).
+Proof.
+  induction 1; intros Hb; simpl; [assumption | apply U8_1 | apply U8_2 | apply U8_3 | apply U8_4]; auto.
+Qed.
+Lemma U8_concat : forall l, Forall U8 l -> U8 (concat l).
+Proof. induction 1; simpl; [constructor | apply U8_app; auto]. Qed.
+Lemma U8_ascii : forall s, Forall (fun b => 0 <= b < 128) s -> U8 s.
+Proof. induction 1; constructor; auto. Qed.
+
+(** a valid text cut at a character boundary gives two valid texts *)
+Lemma cont_not_ascii : forall b, is_cont b = true -> 128 <= b < 192.
+Proof. intros b H. unfold is_cont in H. zb. lia. Qed.
+Lemma U8_split : forall s, U8 s -> forall a b, s = a ++ b -> starts_on_boundary b = true -> U8 a /\ U8 b.
+Proof.
+  induction 1 as [|c r Hc Hr IH|c0 c1 r Hc H1 Hr IH|c0 c1 c2 r Hc H1 H2 Ha Hd Hr IH|c0 c1 c2 c3 r Hc H1 H2 H3 Ha Hd Hr IH];
+    intros a b E S.
+  - destruct a; [|discriminate]. simpl in E. subst b. split; constructor.
+  - destruct a as [|x a].
+    + simpl in E. subst b. split; [constructor | apply U8_1; auto].
+    + simpl in E. injection E as <- E. destruct (IH _ _ E S). split; [apply U8_1; auto | auto].
+  - destruct a as [|x [|y a]].
+    + simpl in E. subst b. split; [constructor | apply U8_2; auto].
+    + simpl in E. injection E as <- E. subst b. simpl in S. rewrite H1 in S. discriminate.
+    + simpl in E. injection E as <- <- E. destruct (IH _ _ E S). split; [apply U8_2; auto | auto].
+  - destruct a as [|x [|y [|z a]]].
+    + simpl in E. subst b. split; [constructor | apply U8_3; auto].
+    + simpl in E. injection E as <- E. subst b. simpl in S. rewrite H1 in S. discriminate.
+    + simpl in E. injection E as <- <- E. subst b. simpl in S. rewrite H2 in S. discriminate.
+    + simpl in E. injection E as <- <- <- E. destruct (IH _ _ E S). split; [apply U8_3; auto | auto].
+  - destruct a as [|x [|y [|z [|w a]]]].
+    + simpl in E. subst b. split; [constructor | apply U8_4; auto].
+    + simpl in E. injection E as <- E. subst b. simpl in S. rewrite H1 in S. discriminate.
+    + simpl in E. injection E as <- <- E. subst b. simpl in S. rewrite H2 in S. discriminate.
+    + simpl in E. injection E as <- <- <- E. subst b. simpl in S. rewrite H3 in S. discriminate.
+    + simpl in E. injection E as <- <- <- <- E. destruct (IH _ _ E S). split; [apply U8_4; auto | auto].
+Qed.
+
+Lemma drop_some : forall n s r, drop n s = Some r -> exists p, s = p ++ r.
+Proof.
+  induction n as [|n IH]; intros s r H; simpl in H.
+  - injection H as <-. exists []. reflexivity.
+  - destruct s as [|x s]; [discriminate|]. destruct (IH _ _ H) as [p ->]. exists (x :: p). reflexivity.
+Qed.
+Lemma take_some : forall n s p q, take n s = Some (p, q) -> s = p ++ q.
+Proof.
+  induction n as [|n IH]; intros s p q H; simpl in H.
+  - injection H as <- <-. reflexivity.
+  - destruct s as [|x s]; [discriminate|]. destruct (take n s) as [[p' q']|] eqn:E; [|discriminate].
+    injection H as <- <-. rewrite (IH _ _ _ E). reflexivity.
+Qed.
+
+(** `&src[a..b]` of a valid text is a valid text *)
+Theorem slice_valid : forall src a b s, U8 src -> slice src a b = Some s -> U8 s.
+Proof.
+  intros src a b s V H. unfold slice in H.
+  destruct ((0 <=? a) && (a <=? b)); [|discriminate].
+  destruct (drop (Z.to_nat a) src) as [s1|] eqn:D; [|discriminate].
+  destruct (starts_on_boundary s1) eqn:S1; [|discriminate].
+  destruct (take (Z.to_nat (b - a)) s1) as [[p q]|] eqn:T; [|discriminate].
+  destruct (starts_on_boundary q) eqn:S2; [|discriminate]. injection H as <-.
+  destruct (drop_some _ _ _ D) as [pre E]. pose proof (take_some _ _ _ _ T) as E2.
+  destruct (U8_split _ V _ _ E S1) as [_ V1]. destruct (U8_split _ V1 _ _ E2 S2) as [V2 _]. exact V2.
+Qed.
